@@ -1,4 +1,4 @@
-package memoryevict
+package cpuevict
 
 // MASTER COPY of the part of the C11 harness that is common to the memoryevict and cpuevict packages; gen.sh derives
 // round_cpu_test.go from it by rewriting the package clause. The package-specific hooks (features, resources, world
